@@ -835,7 +835,7 @@ func init() {
 	fw.Register(&fw.Prop{
 		ID:    "C07",
 		Level: "fault_enumeration",
-		Rule: "for every program of the corpus: the limit N for every N in [1..S+1] (S = its full step count), synchronous Cancel from every built-in call (single and double reason), asynchronous Cancel from a second goroutine landing before every instruction k in [1..S] in the three orders {Cancel, Cancel;Uncancel, Uncancel;Cancel}; non-terminating programs under every limit up to a bound; " +
+		Rule: "for every program of the corpus: the limit N for every N in [1..S+1] (S = its full step count), synchronous Cancel from every built-in call (single and double reason), asynchronous Cancel from a second goroutine landing before every instruction k in [1..S] in the three orders {Cancel, Cancel;Uncancel, Uncancel;Cancel}; non-terminating programs under every limit up to a bound; 17 families of programs with 1..24 units of work (each further unit costs the same positive number of steps); " +
 			"explicit-state search over Cancel/Uncancel/SetMax/Exec sequences against a reference model; a free-running -race pass; " +
 			"oracle: exactly the probes with step index < N fire, the outcome is success iff S < N, the error names the first reason, the stack depth is restored; non-trivial = programs (and model states) fully explored",
 		Run: run, Worker: worker, Replay: replay,
